@@ -3,6 +3,10 @@
 HOOK_COMMITS = ["ed224dc", "bc3b859", "c46a242"]
 
 ENGINES = [
+    {"name": "readn", "path": "specs/ReadN.tla specs/ReadNMC.tla specs/ReadNTrace.tla lib/engines/readn.py harness/src/readn.rs",
+     "serves_properties": ["C17"],
+     "kind_free_text": "TLA+ declared result of read_n vs transcribed retry loop (TLC, all scripts within bounds); every "
+     "checked configuration executed on the real code through five entry points; TLC trace validation"},
     {"name": "pipe", "path": "specs/IovecPipe.tla specs/PipeTrace.tla specs/FootprintTrace.tla lib/engines/pipe.py "
      "harness/src/pipe.rs harness/src/footprint.rs",
      "serves_properties": ["C03", "C04", "C05", "C20", "C10"],
@@ -55,6 +59,20 @@ PIPE_NOTE = ("Conformance level: every event of seeded random histories (400 x 6
              "recorded as a violation of C05 for that run.")
 
 CHECKS = {
+    "C17": {
+        "engine": "readn",
+        "technique": "TLA+ spec + TLC model checking of the transcribed retry loop; every enumerated configuration replayed and TLC-validated on five entry points",
+        "text": "ReadN.tla declares the result of read_n from the reader script (which call ends the loop, requested sizes, returned bytes, "
+                "Ok/Err and which error) and transcribes the retry loop; TLC checks they agree for all scripts up to length 4 (5) over "
+                "{deliver 1,2,3, EOF, EINTR, two hard errors} x counts 0..4 (5) x attempts 1..5 (6). Every one of those configurations is "
+                "executed on ByteArena::read_n (fresh, empty-tail, 1-byte-tail, count-1, count tails, maximal chunk) and on Encoder/Decoder "
+                "read_n, encode_read, decode_read; TLC validates the recorded reader calls, results, returned bytes, and that the codec's "
+                "later output is the format's encoding/decoding of exactly the bytes read; plus random longer scripts and counts at the "
+                "4096 / 1 MiB chunk boundaries.",
+        "design_ref": "DESIGN.md section 6, C17",
+        "note": "Bounded enumeration as stated; larger counts sampled. Readers that deliver more than requested or return 0 before "
+                "the end are outside std::io::Read's contract. Trusts TLC, the scripted reader of the harness.",
+    },
     "C03": {
         "engine": "pipe",
         "technique": "TLA+ A-spec (byte pipe with holes over run lists) + TLC trace validation of every event of random/scripted OwningIovec histories",
